@@ -47,6 +47,13 @@ func Harness_C03_routes() {
 	chain := []*x509.Certificate{pre, issuer}
 	if preIssuer {
 		chain = []*x509.Certificate{pre, pi, issuer}
+		if vChoice("final-issuer-missing", 2) == 1 {
+			// the chain ends at the precert-signing certificate: there is no final issuer to take the key hash from
+			_, err := MerkleTreeLeafFromChain(chain[:2], PrecertLogEntryType, ts)
+			vAssert(err != nil, "a precertificate chain that ends at its precert-signing certificate yields no entry")
+			vReach("preissuer")
+			return
+		}
 	}
 	a, err := MerkleTreeLeafFromChain(chain, PrecertLogEntryType, ts)
 	vAssert(err == nil, "precert route builds an entry")
@@ -68,4 +75,41 @@ func Harness_C03_routes() {
 	} else {
 		vReach("direct")
 	}
+}
+
+// Harness_C03_routesHistory: the embedded-SCT route is a function of the certificate it is given,
+// whatever was asked before: after a certificate whose SCT list can be removed, one whose list
+// cannot (absent or present twice) fails, fails again when retried, and a third certificate gets
+// its own transformation's output -- for every order of a short history of calls.
+//
+//verif:opt maxpaths=4000 reach=replayed
+func Harness_C03_routesHistory() {
+	ts := vU64("sct-timestamp")
+	issuer := &x509.Certificate{Raw: []byte{1}, RawSubjectPublicKeyInfo: vBytes("issuer-spki", 2)}
+	// three certificates: two good ones with different outputs, one whose SCT list cannot be removed
+	tbss := [][]byte{{0xa1, 0x01}, {0xa2, 0x02}, {0xbb, 0x03}}
+	outs := [][]byte{{0x11}, {0x22}, nil}
+	x509.VerifCtlRemoveSCT = func(tbs []byte) ([]byte, error) {
+		for i := range tbss {
+			if bytes.Equal(tbs, tbss[i]) {
+				if outs[i] == nil {
+					return nil, x509.ErrVerifNoSCTList
+				}
+				return outs[i], nil
+			}
+		}
+		vFail("a TBS that was never submitted is transformed")
+		return nil, nil
+	}
+	for call := 0; call < 4; call++ {
+		k := vChoice("which-certificate", 3)
+		fin := &x509.Certificate{Raw: []byte{0x30, byte(k)}, RawTBSCertificate: append([]byte{}, tbss[k]...)}
+		leaf, err := MerkleTreeLeafForEmbeddedSCT([]*x509.Certificate{fin, issuer}, ts)
+		if outs[k] == nil {
+			vAssert(err != nil && leaf == nil, "a certificate whose SCT list cannot be removed yields no entry, however often it is tried")
+		} else {
+			vAssert(err == nil && leaf != nil && bytes.Equal(leaf.TimestampedEntry.PrecertEntry.TBSCertificate, outs[k]), "each certificate gets the transformation of its own TBS")
+		}
+	}
+	vReach("replayed")
 }
